@@ -306,6 +306,13 @@ class NodeExecution:
     wait_for_versions: dict[str, int] = field(default_factory=dict)
 
 
+def _is_emit_sentinel(value: Any) -> bool:
+    """True if value is the emit sentinel (imported lazily to avoid import cycles)."""
+    from hypergraph.nodes.base import _EMIT_SENTINEL
+
+    return value is _EMIT_SENTINEL
+
+
 @dataclass
 class GraphState:
     """Internal runtime state during graph execution.
@@ -338,6 +345,10 @@ class GraphState:
 
         # Only increment version if value actually changed
         if is_new:
+            self.versions[name] = self.versions.get(name, 0) + 1
+        elif _is_emit_sentinel(value):
+            # Every emission of an ordering signal is a fresh production, even
+            # though the sentinel object itself never changes.
             self.versions[name] = self.versions.get(name, 0) + 1
         else:
             # Defensive comparison for types like numpy arrays
